@@ -9,7 +9,7 @@ property states and against the dense value (nutils' own unsimplified dense eval
 
 import json
 import numpy
-from .. import core, terms as T, irspace, irtools, loopspace as LS
+from .. import core, terms as T, irspace, irtools, loopspace as LS, extraspace as XS
 
 LEVEL = 'exploration'
 RULE = ('every non-boolean term of depth<=2 (quick: leaves f5 + mixed at depth 1; thorough: all leaves + constants) and every loop program '
@@ -29,7 +29,7 @@ LOOP_CHUNK = 100
 
 
 def shards(tier, seed):
-    out = [{'kind': 'function'}]
+    out = [{'kind': 'function'}] + [{'kind': 'extra', 'lo': lo, 'hi': lo + 80} for lo in range(0, len(XS.terms(tier)), 80)]
     n = len(LS.programs(tier))
     for lo in range(0, n, LOOP_CHUNK):
         out.append({'kind': 'loops', 'lo': lo, 'hi': min(n, lo + LOOP_CHUNK)})
@@ -101,6 +101,10 @@ def check_term(term, nsets=2, res=None):
         node = T.build(term)
     except Exception as e:
         return ('-', 'build', repr(e)[:200])
+    if not irtools.simplifies(node):
+        if res is not None:
+            res.count('skipped_simplifier_fails_see_C01')
+        return None
     routes = []
     try:
         # the public extraction routes (function.as_coo / as_csr, evaluable.as_csr, solver.System) simplify first; extraction from the
@@ -259,6 +263,13 @@ def run_shard(spec, tier, seed):
             else:
                 res.distinct('distinct_nontrivial', json.dumps(c))
         res.sample({'function_case': function_cases()[0]})
+    elif spec['kind'] == 'extra':
+        last = None
+        for fam, term in XS.terms(tier)[spec['lo']:spec['hi']]:
+            _one(term, res)
+            last = term
+        if last is not None:
+            res.sample({'structured_family_term': T.show(last)})
     elif spec['kind'] == 'loops':
         last = None
         for fam, prog in LS.programs(tier)[spec['lo']:spec['hi']]:
